@@ -178,7 +178,7 @@ def plan(tier, seed):
         for i in range(nshards):
             tasks.append({"engine": "hyp", "examples": examples, "seed": seed * 1000 + i + 100 * assertions, "assertions": assertions})
             tasks.append({"engine": "blind-hyp", "examples": examples, "seed": seed * 1000 + 400 + i + 100 * assertions, "assertions": assertions})
-        for spec in ("HNM", "HLM", "HNode") if (tier == "thorough" or assertions == 1) else ():
+        for spec in ("HNM", "HLM", "HNode", ["HNM", "HLM"], ["HDictLM", "HNode"]) if (tier == "thorough" or assertions == 1) else ():
             for n, length in ([(2, 3), (3, 2)] if tier == "quick" else [(2, 4), (3, 3)]):
                 shards = 4 if (n, length) == (2, 3) else nshards
                 for i in range(shards):
@@ -208,7 +208,7 @@ def run_task(task, acc):
         cases = mut.blind_sequences(task["spec"], task["n"], task["length"], task["index"], task["count"])
         return acc.run_enum(check_case, (dict(c, assertions=task["assertions"]) for c in cases))
     if task["engine"] == "blind-hyp":
-        strat = mut.history_strategy(max_nodes=6, max_steps=20, faults="all", invalid=True, class_specs=[c for c in CLASS_SPECS if mut.family_of(c) != "mixed"])
+        strat = mut.history_strategy(max_nodes=6, max_steps=20, faults="all", invalid=True, class_specs=CLASS_SPECS + [["HNM", "HDictLM"], ["SlotLM", "PlainNM"]])
         return acc.run_hypothesis(check_case, strat.map(lambda c: {"kind": "blind", "cls": c["cls"], "n": c["n"], "steps": c["steps"], "assertions": task["assertions"]}), task["examples"], task["seed"])
     if task["engine"] == "enum":
         spec = ENUM_SPECS[task["spec"]]
